@@ -22,6 +22,10 @@ func dataEnv(env *Env) {
 	add("pt", &T1{Name: "Bob", Age: 41, Tags: []string{"x"}})
 	add("np", (*T1)(nil))
 	add("t3", T3{T2{X: 6}, 7})
+	add("p4", &T4{N: 1})
+	add("q4", &T4{N: 10})
+	add("v4", T4{N: 5}) // a value: the pointer-receiver methods are not in its method set
+	add("t2b", T2{X: 77})
 	big := make([]any, 2, 5)
 	big[0], big[1] = int64(100), int64(200)
 	add("big", big)
@@ -84,7 +88,7 @@ type pathGen struct {
 
 // genPath builds an access path, tracking the native value: returns text, expected value, expected error class.
 func (g *pathGen) genPath() (string, any, string) {
-	bases := []string{"xs", "ns", "arr", "emp", "m", "st", "pt", "np", "t3", "big", "s", "i"}
+	bases := []string{"xs", "ns", "arr", "emp", "m", "st", "pt", "np", "t3", "big", "s", "i", "p4", "q4", "v4", "t2b", "p4", "q4"}
 	base := g.r.Pick(bases)
 	text := base
 	cur := g.env.Vals[base]
@@ -188,7 +192,7 @@ func (g *pathGen) genPath() (string, any, string) {
 				name = names[g.r.Intn(len(names))]
 			}
 			if g.r.Chance(20) { // method
-				name = g.r.Pick([]string{"Hello", "PtrM", "GetX", "Twice", "Nope"})
+				name = g.r.Pick([]string{"Hello", "PtrM", "GetX", "Twice", "Nope", "Next", "Self", "Next", "Self"})
 				orig := reflect.ValueOf(cur)
 				m := orig.MethodByName(name)
 				if !m.IsValid() {
